@@ -156,6 +156,8 @@ def programs():
     # two updates with independent jobs (the out-of-order commit scenario needs update 2 to bring ready work of its own)
     P["ooc2"] = Program("ooc2", {1: job(), 2: job(upd=2, cores=250)}, {}, 2)
     P["sib"] = Program("sib", {1: job(grp=1), 2: job(grp=2, cores=250)}, {1: dict(parent=0, upd=1), 2: dict(parent=0, upd=1)}, 1)
+    # two independent jobs on two instances: the last two jobs of a batch can complete at the same time without sharing an instance row
+    P["sib2i"] = Program("sib2i", {1: job(grp=1), 2: job(cores=250)}, {1: dict(parent=0, upd=1)}, 1, insts=("i1", "i2"))
     P["jpim_s"] = Program("jpim_s", {1: job(grp=1)}, {1: dict(parent=0, upd=1)}, 1, features=("jpim", "deactivate"))
     P["retry_s"] = Program("retry_s", {1: job()}, {}, 1, att_ids=("a1", "a2"), insts=("i1", "i2"), features=("deactivate",))
     P["billing_s"] = Program("billing_s", {1: job(grp=1)}, {1: dict(parent=0, upd=1)}, 1, times=(0, 1), days=(0, 1),
@@ -1015,7 +1017,11 @@ CROSS = {("Complete", "Commit"), ("Commit", "Complete"), ("Complete", "Complete"
          ("ScheduleProc", "CancelReadyCall"), ("UnscheduleCall", "Complete"), ("Complete", "UnscheduleCall"), ("Started", "CancelGroup"),
          ("CancelGroup", "CancelGroup"), ("Commit", "Commit"), ("Heartbeat", "Complete"), ("Complete", "Heartbeat"),
          ("AddResources", "Complete"), ("Complete", "AddResources"), ("InsertJob", "InsertJob"), ("Complete", "CancelReadyCall"),
-         ("CancelReadyCall", "Complete"), ("Complete", "FailFastCall"), ("FailFastCall", "Complete")}
+         ("CancelReadyCall", "Complete"), ("Complete", "FailFastCall"), ("FailFastCall", "Complete"),
+         ("InsertGroup", "CancelGroup"), ("CancelGroup", "InsertGroup"), ("InsertGroup", "Commit"), ("InsertGroup", "InsertGroup"),
+         ("InsertGroup", "InsertJob"), ("InsertJob", "InsertGroup"), ("CreateUpdate", "CreateUpdate"), ("CreateUpdate", "Commit"),
+         ("CreateUpdate", "CancelGroup"), ("CancelGroup", "InsertJob"), ("Commit", "InsertJob"), ("Started", "Started"),
+         ("ScheduleProc", "ScheduleProc"), ("UnscheduleCall", "UnscheduleCall"), ("CancelReadyCall", "CancelReadyCall")}
 REQUESTS = {"CreateUpdate", "InsertGroup", "InsertJob", "Commit", "CancelGroup", "MarkDeleted"}
 COMPACTORS = ("Heartbeat", "AddResources", "Complete", "UnscheduleCall", "Deactivate")
 
@@ -1148,6 +1154,15 @@ def interleave_stage(ctx, pid, names, *, budget_s, all_pairs=False, max_k=40, pa
             if not cands:
                 continue
             rng.shuffle(cands)
+            if kd[0] == kd[1]:
+                # two requests of one kind: the same request twice, then two requests about different objects (first argument),
+                # then anything else - in turn, so that e.g. "the last two jobs complete at the same time" gets its share
+                def flavour(c):
+                    if c[0] == c[2]:
+                        return 0
+                    return 1 if _args_of(c[0])[1][:1] != _args_of(c[2])[1][:1] else 2
+                want = [0, 1, 2][rounds % 3]
+                cands.sort(key=lambda c: (flavour(c) != want))
             chosen = cands[:pairs_per_state]
             impl = Impl(p, seed=ctx.seed + nsc)
             others = []
